@@ -289,7 +289,7 @@ int32 getDefaultVersions(ssl_t *ssl)
 
     /* Loop over versions from latest to earliest (priority order). */
     mask = (1 << 23);
-    for (k = 23; k >= 1; k--)
+    for (k = 23; k >= 1; k--, mask >>= 1)
     {
         /* No longer advertise TLS 1.3 draft versions unless specifically
            enabled via compile-time config. */
@@ -303,7 +303,6 @@ int32 getDefaultVersions(ssl_t *ssl)
             /* Add it. */
             addVersion(ssl, mask);
         }
-        mask >>= 1;
     }
 
     return MATRIXSSL_SUCCESS;
